@@ -18,7 +18,23 @@ PIDS = ['C%02d' % i for i in range(1, 21)]
 def run_property(pid, tier, root=None):
   mod = importlib.import_module('sa.props.%s' % pid.lower())
   ctx = report.Ctx(pid, tier, Program(root))
-  mod.check(ctx)
+  try:
+    mod.check(ctx)
+  except AnalysisError:
+    raise
+  except (IndexError, KeyError, AttributeError, TypeError, ValueError, AssertionError) as e:
+    # a rule could not even destructure its anchored construct (changed signature, tuple
+    # arity, missing statement ...): the premise the rule was confirmed on no longer holds.
+    # Reported as a finding naming the rule function, never silently passed.
+    import traceback as _tb
+    frames = [fr for fr in _tb.extract_tb(e.__traceback__) if os.sep + 'props' + os.sep in fr.filename]
+    where = frames[-1] if frames else None
+    fn = where.name if where else '?'
+    mod_name = os.path.basename(where.filename)[:-3] if where else pid.lower()
+    ctx.ob('%s.SHAPE' % pid, 'scales/:0', 'rule %s.%s can no longer interpret its anchored construct (%s)' % (mod_name, fn, type(e).__name__), False,
+           'the construct this rule is anchored on changed shape (%s: %s at %s:%s); the rule cannot establish its obligation' % (
+             type(e).__name__, e, mod_name, where.lineno if where else 0),
+           'a rule whose anchored construct changed shape (signature, tuple arity, statement kind) cannot discharge its obligation; reviewed as a violation of the rule premise')
   if ctx.floor_failures and not ctx.findings:
     raise AnalysisError('; '.join(ctx.floor_failures))
   return ctx
